@@ -393,6 +393,20 @@ func layoutOracle(c *Ctx, cr *CaseResult, help string, cols int) {
 		}
 	}
 	c.Check("description-words-are-kept-in-order", true, "", nil, "", "")
+	if column > 0 {
+		// continuation lines are indented to exactly that column
+		indent := strings.Repeat(" ", column)
+		for _, l := range lines {
+			if !strings.HasPrefix(l, indent) || len(l) == column {
+				continue
+			}
+			if first, _ := utf8.DecodeRuneInString(l[column:]); unicode.IsSpace(first) {
+				fail("continuation-lines-are-indented-to-the-description-column", "C17:continuation", fmt.Sprintf("a continuation line starts in column %d: %q", column+len(l[column:])-len(strings.TrimLeft(l[column:], " \t")), l), fmt.Sprintf("column %d", column))
+				return
+			}
+		}
+		c.Check("continuation-lines-are-indented-to-the-description-column", true, "", nil, "", "")
+	}
 	if column >= 0 && cols-column >= 10 {
 		// description lines: the rows that carry a marker and the continuation lines indented to the column
 		indent := strings.Repeat(" ", column)
